@@ -301,6 +301,16 @@ def gen_aimed_case(rng, force_dir=None, kind=None):
         c['resources'] = [r for r in c['resources'] if r['name'] != 'a'] + \
             [{'name': 'a', 'cal': ['binc', 'or', wk([0, 1, 2, 3, 4, 5, 6], ['i', 8], None, bound), wk([0, 1, 2, 3, 4, 5, 6], ['i', 8], bound + DAY, None)]}]
         c['balance'] = True
+    elif kind == 'stale-milestone':
+        # a milestone that still carries dates of an old plan (in the past), with a prerequisite of its own, and a task that
+        # waits for it and comes EARLIER in the WBS: the milestone must be re-placed before the task reads its end
+        past = min(c['now'], c['pbound']) - rng.randint(3, 30) * DAY
+        out = [T(ids[0], None, resource=res(), est=est()),                                   # waits for the milestone
+               T(ids[1], None, resource=None, est=None, milestone=True, start=past, end=past),
+               T(ids[2], None, resource=res(), est=rng.choice([64, 128, 200]))]              # the milestone waits for it
+        if rng.random() < 0.5:
+            out.append(T(ids[3], None, resource=res(), est=est()))
+        c['tasks'], c['links'] = out, [[t_(2), t_(1)], [t_(1), t_(0)]]
     elif kind == 'mixed-siblings':
         # a summary that is NOT a root, whose children mix a child that takes part in a dependency with plain leaves before
         # and after it: the result must list them in the input order (clone wires every task, linked or not)
@@ -811,6 +821,8 @@ def run_property(ctx, pid, fail_bits, mismatch_bits, dirs=('fwd', 'bwd'), extra=
     for fd in dirs:
         cases += [gen_aimed_case(rng2, fd, kind='bound-day') for _ in range(6 if ctx.tier == 'quick' else 60)]
         cases += [gen_aimed_case(rng2, fd, kind='mixed-siblings') for _ in range(3 if ctx.tier == 'quick' else 30)]
+        if fd != 'bwd':
+            cases += [gen_aimed_case(rng2, 'fwd', kind='stale-milestone') for _ in range(3 if ctx.tier == 'quick' else 30)]
     if extra_cases:      # a property's own additional stream (callable: drawn after the common stream)
         cases += list(extra_cases(ctx) if callable(extra_cases) else extra_cases)
     n_off = 0
@@ -822,6 +834,22 @@ def run_property(ctx, pid, fail_bits, mismatch_bits, dirs=('fwd', 'bwd'), extra=
             if c['dir'] in dirs:
                 cases.append(c)
                 n_off -= 1
+    if offgrid_fail:
+        # off-grid amounts a hair above what a day holds (8.004 on an 8-unit day: the rest must go to the next day), from
+        # the stream of the later scenarios
+        for fd in dirs:
+            for _ in range(4 if ctx.tier == 'quick' else 40):
+                c = gen_offgrid_case(rng2)
+                c['dir'] = fd
+                c['ext'] = []
+                c['links'] = []
+                c['edit_calendars'] = []
+                c['tasks'] = [dict(t, parent=None, resource='a', start=None, end=None, min_start=None, milestone=False, spent=None, spent_raw=None,
+                                   est=8, est_raw=float(8 * rng2.choice([1, 1, 2, 3]) + rng2.choice([0.004, 0.009, 0.0005, 0.002])).hex())
+                              for t in c['tasks'][:rng2.randint(1, 3)]]
+                c['resources'] = [{'name': 'a', 'cal': wk([0, 1, 2, 3, 4], ['i', 8])}]
+                c['aimed'] = 'near-capacity'
+                cases.append(c)
     outs, kept, codes = evaluate(ctx, cases)
     dist = {'offgrid_stream': sum(1 for c, _ in kept if c.get('offgrid')), 'time_of_day_calendar_stream': sum(1 for c, _ in kept if c.get('tod_calendars')), 'calendar_edited_between_calcs': sum(1 for c, _ in kept if c.get('edit_calendars')),
             'aimed_sideways': sum(1 for c, _ in kept if c.get('aimed') == 'sideways'),
